@@ -176,6 +176,32 @@ def stream(work):
     return results
 
 
+def envelope(work):
+    """C06 / Envelope.tla: a receive event with another value, a dropped exit event, an exit event delivered before the error event"""
+    from . import envcheck as E
+
+    def C(i, kind, script, drive, I=("*",), **kw):
+        return {"id": i, "cfg": dict({"kind": kind, "script": script, "drive": drive, "I": list(I), "ext": [], "free": [], "params": []}, **kw),
+                "how": {"close": "close", "star": "each"}}
+    cases = [C(1, "gen", ["bind", "yield", "bind"], ["next", "send"], ext=["G"], params=["p"]), C(2, "fn", ["bind", "ret"], []),
+             C(3, "gen", ["yield"], ["next", "throw"]), C(4, "gen", ["yield", "yield"], ["next", "close"])]
+    res = E.execute(cases, work, par=1)
+    results = [("TraceEnvelope accepts real activations", not any(t.tagged("FAIL") or t.error for t in E.validate(res, work, par=1)))]
+    bad = copy.deepcopy(res)
+    k = next(i for i, e in enumerate(bad[0]["out"]) if e[0] == "#receive")
+    bad[0]["out"][k][1] = "s9"
+    bad[1]["out"].pop()                                    # no exit event
+    ke = next(i for i, e in enumerate(bad[2]["out"]) if e[0] == "#error")
+    bad[2]["out"][ke], bad[2]["out"][ke + 1] = bad[2]["out"][ke + 1], bad[2]["out"][ke]
+    bad[3]["obs"][-1] = ["raised", "GeneratorExit"]        # the driver sees another outcome than Python's
+    got = {(x[1], x[2], x[4]) for t in E.validate(bad, work, par=1) for x in t.tagged("FAIL")}
+    results.append(("TraceEnvelope rejects an altered sent value, a missing exit event, exit before error, another outcome - each at its position",
+                    got == {(1, "BodyClause", k + 1), (2, "ExitClause", len(bad[1]["out"]) + 1), (3, "ExitClause", ke + 1), (4, "Transparent", len(bad[3]["out"]) + 1)}))
+    if not results[-1][1]:
+        print(sorted(got))
+    return results
+
+
 def main():
     work = core.scratch("selftest-")
     results = []
@@ -188,6 +214,7 @@ def main():
         results += xmech(work)
         results += staged(work)
         results += stream(work)
+        results += envelope(work)
     finally:
         core.cleanup()
     ok = True
